@@ -53,6 +53,7 @@ type Chan struct {
 	IO, SQL  bool
 	IOErrno  int
 	SQLErrno int
+	Sticky   bool // the SQL thread hits the same error again whenever it is started (until the channel is re-created)
 }
 
 type Node struct {
@@ -77,6 +78,7 @@ type Node struct {
 	ReplMonDelay         *int64
 	NextGno              int64
 	Unkillable           bool // commits waiting for an ACK ignore KILL
+	StickySQLErrno       int  // the SQL thread fails with this errno whenever it is started (a poisoned transaction)
 	LagAlways            bool // report Seconds_Behind_Source even when a thread is stopped (stands for a custom replication_lag source)
 
 	conns map[net.Conn]bool
@@ -122,6 +124,8 @@ type World struct {
 	CallerOfPort map[string]string
 	// AutoReplicate: running replication threads fetch/apply everything available whenever a node is read
 	AutoReplicate bool
+	// Workload: if set, this (writable) node commits one new transaction whenever any statement arrives anywhere
+	Workload string
 	// OnStatement is called (world locked) before a statement is applied; used by monitors.
 	OnStatement func(w *World, n *Node, caller, kind, arg string)
 	// Severed callers: every statement from them is refused without effect (crash emulation)
@@ -637,6 +641,12 @@ func (w *World) query(n *Node, sess *session, caller, raw string) result {
 			return finish(result{drop: true}, "")
 		}
 	}
+	if w.Workload != "" {
+		if m, ok := w.Nodes[w.Workload]; ok && m.Up && !m.RO && m.StuckCommits == 0 {
+			m.NextGno++
+			m.Executed = GtidUnion(m.Executed, fmt.Sprintf("%s:%d", m.UUID, m.NextGno))
+		}
+	}
 	if w.OnStatement != nil {
 		w.OnStatement(w, n, caller, kind, arg)
 	}
@@ -818,7 +828,10 @@ func (w *World) apply(n *Node, sess *session, q, kind, arg string) (result, stri
 		if n.Chan == nil {
 			return result{errno: 1200, msg: "The server is not configured as replica"}, ""
 		}
-		n.Chan.SQL = true
+		n.Chan.SQL = !(n.Chan.Sticky && n.Chan.SQLErrno != 0)
+		if n.StickySQLErrno != 0 {
+			n.Chan.SQL, n.Chan.SQLErrno = false, n.StickySQLErrno
+		}
 		return okRes, "ROk"
 	case "SStopRepl":
 		if n.Chan != nil {
@@ -832,8 +845,11 @@ func (w *World) apply(n *Node, sess *session, q, kind, arg string) (result, stri
 		if n.Chan == nil {
 			return result{errno: 1200, msg: "The server is not configured as replica"}, ""
 		}
-		n.Chan.IO, n.Chan.SQL = true, true
+		n.Chan.IO, n.Chan.SQL = true, !(n.Chan.Sticky && n.Chan.SQLErrno != 0)
 		n.Chan.IOErrno = 0
+		if n.StickySQLErrno != 0 {
+			n.Chan.SQL, n.Chan.SQLErrno = false, n.StickySQLErrno
+		}
 		n.SSSlaveEffective = n.SSSlave
 		return okRes, "ROk"
 	case "SResetReplAll":
